@@ -429,16 +429,20 @@ func checkGroupBy(t *rapid.T, tr *trace, qf qframe.QFrame, src *obs.Frame, model
 			if fn == "user" {
 				r := &rec{}
 				recorded[as] = r
+				// The user functions are pure (the result depends on the slice
+				// only, never on how often or in which order they are called) and
+				// not the identity on one-element slices; what they were handed
+				// is recorded on the side.
 				switch typ {
 				case "int":
-					f = func(xs []int) int { r.ints = append(r.ints, append([]int{}, xs...)); return len(r.ints) }
+					f = func(xs []int) int { r.ints = append(r.ints, append([]int{}, xs...)); return userInt(xs) }
 				case "float":
 					f = func(xs []float64) float64 {
 						r.floats = append(r.floats, append([]float64{}, xs...))
-						return float64(len(r.floats))
+						return userFloat(xs)
 					}
 				case "bool":
-					f = func(xs []bool) bool { r.bools = append(r.bools, append([]bool{}, xs...)); return len(r.bools)%2 == 0 }
+					f = func(xs []bool) bool { r.bools = append(r.bools, append([]bool{}, xs...)); return userBool(xs) }
 				default:
 					f = func(xs []*string) *string {
 						var cp []string
@@ -446,7 +450,7 @@ func checkGroupBy(t *rapid.T, tr *trace, qf qframe.QFrame, src *obs.Frame, model
 							cp = append(cp, obs.StrText(p))
 						}
 						r.strs = append(r.strs, cp)
-						s := strconv.Itoa(len(r.strs))
+						s := userStr(cp)
 						return &s
 					}
 				}
@@ -482,6 +486,10 @@ func checkGroupBy(t *rapid.T, tr *trace, qf qframe.QFrame, src *obs.Frame, model
 		core.Violation(t, "C04:G2:schema", fmt.Sprintf("Aggregate columns %q, expected %q", ro.Names, wantNames), tr)
 		return
 	}
+	gotIDs := map[string]bool{}
+	for _, ids := range recID {
+		gotIDs[fmt.Sprint(ids)] = true
+	}
 	firstOf := map[int]*class{}
 	for _, cl := range model {
 		firstOf[cl.rows[0]] = cl
@@ -502,8 +510,8 @@ func checkGroupBy(t *rapid.T, tr *trace, qf qframe.QFrame, src *obs.Frame, model
 			idv, _ := strconv.Atoi(src.Col("__id")[rr][2:])
 			wantIDs = append(wantIDs, idv)
 		}
-		if fmt.Sprint(recID[r]) != fmt.Sprint(wantIDs) {
-			core.Violation(t, "C04:G2:group-values", fmt.Sprintf("aggregation function received __id values %v for the class %v", recID[r], wantIDs), tr)
+		if len(wantIDs) > 1 && !gotIDs[fmt.Sprint(wantIDs)] {
+			core.Violation(t, "C04:G2:group-values", fmt.Sprintf("no call of the aggregation function received the class's __id values %v in frame order (calls received %v)", wantIDs, recID), tr)
 			return
 		}
 		// key cells
@@ -584,11 +592,7 @@ func checkAgg(typ, fn string, cells []string, got string, r interface{}, row int
 				}
 			}
 		case "user":
-			rec := r.(*rec)
-			if fmt.Sprint(rec.ints[row]) != fmt.Sprint(xs) {
-				return fmt.Sprintf("user function received %v", rec.ints[row])
-			}
-			want = row + 1
+			want = userInt(xs)
 		}
 		if got != "i:"+strconv.Itoa(want) {
 			return fmt.Sprintf("got %s, want %d", got, want)
@@ -618,16 +622,7 @@ func checkAgg(typ, fn string, cells []string, got string, r interface{}, row int
 				want = math.Max(want, x)
 			}
 		case "user":
-			rec := r.(*rec)
-			if len(rec.floats[row]) != len(xs) {
-				return fmt.Sprintf("user function received %v", rec.floats[row])
-			}
-			for i := range xs {
-				if math.Float64bits(xs[i]) != math.Float64bits(rec.floats[row][i]) {
-					return fmt.Sprintf("user function received %v", rec.floats[row])
-				}
-			}
-			want = float64(row + 1)
+			want = userFloat(xs)
 		}
 		if !sameFloat(fl(got), want) {
 			return fmt.Sprintf("got %v, want %v", fl(got), want)
@@ -646,26 +641,87 @@ func checkAgg(typ, fn string, cells []string, got string, r interface{}, row int
 		}
 		want := tc > fc
 		if fn == "user" {
-			rec := r.(*rec)
-			if fmt.Sprint(rec.bools[row]) != fmt.Sprint(xs) {
-				return fmt.Sprintf("user function received %v", rec.bools[row])
-			}
-			want = (row+1)%2 == 0
+			want = userBool(xs)
 		}
 		if got != "b:"+strconv.FormatBool(want) {
 			return fmt.Sprintf("got %s, want %v", got, want)
 		}
 	default:
-		rec := r.(*rec)
-		if fmt.Sprint(rec.strs[row]) != fmt.Sprint(cells) {
-			return fmt.Sprintf("user function received %v", rec.strs[row])
+		if want := "s:" + strconv.Quote(userStr(cells)); got != want {
+			return fmt.Sprintf("got %s, want %s", got, want)
 		}
-		if got != "s:"+strconv.Quote(strconv.Itoa(row+1)) {
-			return fmt.Sprintf("got %s", got)
+	}
+	// the function must have been handed exactly the class's values, in frame
+	// order, in (at least) one of its calls
+	if fn == "user" {
+		rc := r.(*rec)
+		want := fmt.Sprint(cells)
+		found := false
+		switch typ {
+		case "int":
+			for _, xs := range rc.ints {
+				var cs []string
+				for _, x := range xs {
+					cs = append(cs, "i:"+strconv.Itoa(x))
+				}
+				found = found || fmt.Sprint(cs) == want
+			}
+		case "float":
+			for _, xs := range rc.floats {
+				var cs []string
+				for _, x := range xs {
+					cs = append(cs, obs.FloatText(x))
+				}
+				found = found || fmt.Sprint(cs) == want
+			}
+		case "bool":
+			for _, xs := range rc.bools {
+				var cs []string
+				for _, x := range xs {
+					cs = append(cs, "b:"+strconv.FormatBool(x))
+				}
+				found = found || fmt.Sprint(cs) == want
+			}
+		default:
+			for _, cs := range rc.strs {
+				found = found || fmt.Sprint(cs) == want
+			}
+		}
+		if !found && len(cells) > 1 {
+			return "no call of the user function received exactly the class's values in frame order"
 		}
 	}
 	return ""
 }
+
+// pure user aggregation functions (not the identity on singletons)
+func userInt(xs []int) int {
+	r := 1000 * len(xs)
+	for i, x := range xs {
+		r += (x%97)*(i+1) + x%7
+	}
+	return r
+}
+
+func userFloat(xs []float64) float64 {
+	r := float64(len(xs)) * 0.5
+	for _, x := range xs {
+		r += x * 0.25
+	}
+	return r
+}
+
+func userBool(xs []bool) bool {
+	n := 0
+	for i, x := range xs {
+		if x {
+			n += i + 1
+		}
+	}
+	return (n+len(xs))%2 == 0
+}
+
+func userStr(cells []string) string { return strconv.Itoa(len(cells)) + ":" + strings.Join(cells, "+") }
 
 func checkDistinct(t *rapid.T, tr *trace, qf qframe.QFrame, src *obs.Frame, model []*class, rowOfID map[int]int, special string) {
 	tr.Op = "Distinct"
